@@ -117,6 +117,11 @@ def t_delta(rng, cspec, dspec):
                 d["pos"]["delta"] = d["pos"]["delta"] * c
             if d.get("cat"):
                 scale(d["cat"])
+    if d2["kind"] == "combined" and (d2.get("cat") or d2.get("pos")) and rng.random() < 0.4:
+        # only the combined dissimilarity is given the new delta_empty; its components are handed over as they were built (the
+        # combined dissimilarity applies its own delta_empty to them)
+        d2["delta"] = d2["delta"] * c
+        return cspec, d2, c, {"delta_factor": c, "components": "left at their own delta_empty"}
     scale(d2)
     return cspec, d2, c, {"delta_factor": c}
 
